@@ -89,6 +89,10 @@ fn take<'a>(run: &RunCtx, tid: u8, slot: u8, u: &'a Unimock, held: &mut Held<'a>
             ev(run, tid, slot, LendWhat::Taken { val: lent_id, kind, addr: r as *const Tracked as u64 });
             held.t.push((lent_id, r));
         }
+        LendKind::MakeRefZ => {
+            let r = u.lend_z(0);
+            ev(run, tid, slot, LendWhat::Taken { val, kind, addr: r as *const ZTok as u64 });
+        }
         LendKind::CloneOfSelf => {
             let r = u.lend_clone(0);
             ev(run, tid, slot, LendWhat::Taken { val, kind, addr: r as *const Unimock as u64 });
